@@ -126,6 +126,15 @@ func genCpuTables(l *loader) {
 			}
 			sb.WriteString("]\n\n")
 		}
+		// the interrupt latch constants consulted by Step's `switch cpu.Interrupt`
+		for _, cn := range []string{"interruptNone", "interruptNMI", "interruptIRQ"} {
+			obj, ok := p.pkg.Scope().Lookup(cn).(*types.Const)
+			if !ok || obj.Val().Kind() != constant.Int {
+				die("%s: constant %s not found", pk[0], cn)
+			}
+			sb.WriteString(fmt.Sprintf("def %s_%s : Nat := %s\n", pk[1], cn, obj.Val().ExactString()))
+		}
+		sb.WriteString("\n")
 	}
 	sb.WriteString("end Gen\n")
 	writeIfChanged("CpuTables.lean", sb.String())
